@@ -108,6 +108,92 @@ func (in *Interp) intrinsic(fn *ssa.Function, args []Value) (Value, bool) {
 			r = And(r, Bin("=", s[i].(*Term), p[i].(*Term)))
 		}
 		return r, true
+	case "bytes.Split", "bytes.SplitN":
+		in.stub(name)
+		src, sep := args[0].(Slice), args[1].(Slice)
+		limit := -1
+		if name == "bytes.SplitN" {
+			limit = in.concrete(args[2].(*Term), "SplitN n")
+		}
+		if limit == 0 {
+			return Slice(nil), true
+		}
+		if len(sep) == 0 {
+			panic(engineError{"bytes.Split with empty separator"})
+		}
+		var parts Slice
+		rest := src
+		for limit < 0 || len(parts) < limit-1 {
+			i := in.indexOf(rest, sep)
+			if i.sval() < 0 {
+				break
+			}
+			k := int(i.sval())
+			parts = append(parts, rest[:k:k])
+			rest = rest[k+len(sep):]
+		}
+		parts = append(parts, rest[:len(rest):len(rest)])
+		return parts, true
+	case "bytes.TrimSpace", "bytes.ToUpper", "bytes.ToLower":
+		if b, ok := sliceConcrete(args[0].(Slice)); ok {
+			in.stub(name)
+			switch name {
+			case "bytes.TrimSpace":
+				return bytesToSlice([]byte(strings.TrimSpace(string(b)))), true
+			case "bytes.ToUpper":
+				return bytesToSlice([]byte(strings.ToUpper(string(b)))), true
+			default:
+				return bytesToSlice([]byte(strings.ToLower(string(b)))), true
+			}
+		}
+	case "bytes.HasSuffix":
+		in.stub(name)
+		sx, px := args[0].(Slice), args[1].(Slice)
+		if len(sx) < len(px) {
+			return B(false), true
+		}
+		r := B(true)
+		off := len(sx) - len(px)
+		for i := range px {
+			r = And(r, Bin("=", sx[off+i].(*Term), px[i].(*Term)))
+		}
+		return r, true
+	case "bytes.Count":
+		in.stub(name)
+		sx, px := args[0].(Slice), args[1].(Slice)
+		if len(px) == 0 {
+			panic(engineError{"bytes.Count with empty separator"})
+		}
+		n := 0
+		rest := sx
+		for {
+			i := in.indexOf(rest, px)
+			if i.sval() < 0 {
+				break
+			}
+			n++
+			rest = rest[int(i.sval())+len(px):]
+		}
+		return C(64, uint64(n)), true
+	case "bytes.LastIndex", "bytes.LastIndexByte":
+		in.stub(name)
+		sx := args[0].(Slice)
+		var px Slice
+		if name == "bytes.LastIndexByte" {
+			px = Slice{args[1]}
+		} else {
+			px = args[1].(Slice)
+		}
+		for i := len(sx) - len(px); i >= 0; i-- {
+			m := B(true)
+			for j := range px {
+				m = And(m, Bin("=", sx[i+j].(*Term), px[j].(*Term)))
+			}
+			if in.ex.decide(m) {
+				return C(64, uint64(i)), true
+			}
+		}
+		return C(64, ^uint64(0)), true
 	case "strings.Index":
 		in.stub(name)
 		return in.indexOf(strSlice(args[0].(Str)), strSlice(args[1].(Str))), true
